@@ -22,6 +22,7 @@ RULE = (
     "'bad-length' schedules (every length != len(time), including 0, len-1, len+1, 2 len); 'before-simulate' "
     "calls; interpolator laws on strictly increasing grids. Non-trivial = a shift != 0 with >= 3 distinct "
     "increments, or any of the other kinds. Distinct = hash of the case record."
+    " After a rejected first simulate the object must still raise on recovery calls; one case in nine runs on copied / pickled objects."
 )
 ASSUMPTIONS = [
     "'rejected' / 'raises an error' accept any exception type",
@@ -146,6 +147,14 @@ def check_case(case) -> Result:
         except Exception:  # noqa: BLE001
             res.nontrivial = True
             res.labels["bad_len"] = case["len_mode"]
+            # the rejected call was the object's first: no simulation has taken place, so recovery must still raise
+            for name, call in (("recovery_factor", lambda: r.res.recovery_factor()), ("recovery_factor_interpolator", lambda: r.res.recovery_factor_interpolator())):
+                try:
+                    out = call()
+                except Exception:  # noqa: BLE001
+                    continue
+                res.bad("C17/recovery-before-simulate-raises", f"{name}() returned {type(out).__name__} on an object whose only simulate call was rejected (schedule of length {n_bad} for {nt} times)")
+                break
             return res
         res.bad("C17/schedule-length-rejected", f"simulate accepted a schedule of length {n_bad} for {nt} times")
         return res
